@@ -67,6 +67,12 @@ fn all_docs(m: &MReg) -> Vec<&Vec<String>> {
 
 pub fn features_body(case: &ProgCase, obs: &mut Obs, sets: &[Vec<&'static str>]) -> Result<(), String> {
     let uses_bitvec = case.prog.uses_bitvec();
+    if case.prog.defs.iter().any(|d| {
+        let keys: std::collections::BTreeSet<&String> = d.attr.replace.iter().map(|(k, _)| k).collect();
+        keys.len() < d.attr.replace.len()
+    }) {
+        obs.class("replace_segment/two_rules_for_one_search_key");
+    }
     let mut prints: Vec<(Vec<&'static str>, Vec<u8>)> = vec![];
     for set in sets {
         let bitvec = set.contains(&"bit-vec");
